@@ -317,8 +317,8 @@ def run(prog: Program, rep: Report, tier: str = "quick") -> None:
     from . import game
 
     game.add_instances(rep, game.c04_job, [(i, tier) for i in range(n)], "R4.6", 50 * n)
-    rep.arbitrate({"R4.1", "R4.2", "R4.3", "R4.4", "R4.5"}, "R4.6", "nothing depends on where a team or a player stands in the input")
-    rep.supersede({"R4.1", "R4.2", "R4.3", "R4.4", "R4.5"}, "R4.6", "nothing depends on where a team or a player stands in the input")
+    rep.arbitrate({"R4.1", "R4.2", "R4.3", "R4.4"}, "R4.6", "nothing depends on where a team or a player stands in the input")
+    rep.supersede({"R4.1", "R4.2", "R4.3", "R4.4"}, "R4.6", "nothing depends on where a team or a player stands in the input")
     rep.floor("R4.1", 3 * n)
     rep.floor("R4.2", 2)
     rep.floor("R4.3", 2 * n)
